@@ -124,6 +124,8 @@ const HOSTILE_TEXTS: &[&str] = &[
     "((module) @_m (#match? @_m \"(\")) { }",
     "(module) @_m { let x = \"a\" let x = \"b\" }",
     "(module) @m { }",
+    // tree-sitter 0.24.7 binding: error at offset 0 of the query text (known finding)
+    "nosuchfield: (identifier) @x { }",
 ];
 
 fn load_case(r: &mut Rng, pool: &[crate::gen::dsl::Pattern], i: usize) -> CaseSpec {
@@ -333,7 +335,11 @@ fn run_load(drv: &mut Driver, text: &str, stream: &str, out: &mut Out) {
         (res, rendered)
     }));
     match r {
-        Err(_) => out.fails.push(("impl-panic".into(), format!("C05 loading or rendering the load error panics [stream={}]", stream), base)),
+        Err(_) => {
+            let model = model_load(drv, text);
+            let sig = if crate::props::c07::is_binding_panic(&model) { crate::props::c07::load_panic_signature("C05", &model) } else { format!("C05 loading or rendering the load error panics [stream={}]", stream) };
+            out.fails.push(("impl-panic".into(), sig, json!({"case": base, "model": model.pretty()})))
+        }
         Ok((res, rendered)) => {
             out.nontrivial = true;
             out.counts.push(format!("load:{}", match &res { Ok(_) => "accepted".to_string(), Err(ParseError::Check(_)) => "check-error".to_string(), Err(e) => format!("{:?}", e).chars().take_while(|c| c.is_alphanumeric()).collect() }));
@@ -359,7 +365,9 @@ fn run_exec(runner: &mut Runner, rep_local: &mut Report, text: &str, source: &st
     let base = json!({"operation": "execute", "stream": stream, "tsg": text, "source": source, "globals": globals.iter().map(|(k, v)| format!("{}={}", k, v)).collect::<Vec<_>>()});
     let file = match catch_unwind(AssertUnwindSafe(|| File::from_str(python_lang(), text))) {
         Err(_) => {
-            out.fails.push(("impl-panic".into(), format!("C05 loading panics [stream={}]", stream), base));
+            let model = model_load(&mut runner.drv, text);
+            let sig = if crate::props::c07::is_binding_panic(&model) { crate::props::c07::load_panic_signature("C05", &model) } else { format!("C05 loading panics [stream={}]", stream) };
+            out.fails.push(("impl-panic".into(), sig, json!({"case": base, "model": model.pretty()})));
             return;
         }
         Ok(Err(e)) => {
